@@ -8,6 +8,7 @@ import (
 	"io"
 	"math/rand"
 	"sort"
+	"sync/atomic"
 	"time"
 
 	"go4.org/rollsum"
@@ -315,7 +316,6 @@ func writerJobs(r *ev.Run) []job {
 	add := func(fc fileCase) {
 		no++
 		fc.CaseID = fmt.Sprintf("w%d;", no)
-		fc := fc
 		jobs = append(jobs, job{id: fc.CaseID, weight: fc.Length / (256 * kib), fn: func() { runFile(r, fc) }})
 	}
 	for rep := 0; rep < reps; rep++ {
@@ -548,7 +548,9 @@ func runFile(r *ev.Run, fc fileCase) {
 			}
 		}
 	}
-	r.Sample(map[string]any{"kind": "file", "case": fc, "chunks": len(in.chunks), "schema_blobs": in.nSchema, "tree_depth": in.maxDepth})
+	if fc.Length > firstChunk && atomic.AddInt32(&fileSamples, 1) <= 2 {
+		r.Sample(map[string]any{"kind": "file", "case": fc, "chunks": len(in.chunks), "schema_blobs": in.nSchema, "tree_depth": in.maxDepth})
+	}
 }
 
 // noteFileEvents labels what the chunker was observed to do (no verdicts) and returns
